@@ -12,6 +12,7 @@
 //!   P  <pid>|k<j> <start> <end> [n=<count>]                                                            EPSCAN
 //!   V  st<n> [pk=k<j>]                                                                                 ESVER
 //!   Q  <pid>|k<j>                                                                                      EPSEQ
+//!   U  <pid>                                                                                            EPSUB <pid> FROM 0 on a second connection; the pushed events up to the last confirmed one
 //!   X  <raw words>      sent verbatim (%k<j> = uuid of key j, %empty, %long, %nul, %e<i>h<hash>); a request outside the grammar
 //!   A~ / M~             the same append, but the NEXT command is sent before the confirmation is awaited
 //! After every successful append the harness waits (polling EPSEQ) until the partition's confirmed sequence has
@@ -346,6 +347,47 @@ impl Session {
     }
 }
 
+/// EPSUB <pid> FROM 0 on a connection of its own: the events pushed up to the partition's last confirmed sequence
+fn subscribe(ss: &mut Session, cl: &mut Option<Client>, port: u16, t: &[&str]) -> String {
+    let Some(pid) = t.get(1).and_then(|x| x.parse::<u16>().ok()) else { return "BADCASE".into() };
+    if cl.is_none() { *cl = Client::connect(port); }
+    let last = match cl.as_mut().map(|c| c.call(&[w("EPSEQ"), w(&pid.to_string())])) {
+        Some(Ok(V::Int(i))) => Some(i),
+        Some(Ok(V::Null)) => None,
+        Some(Ok(V::Err(e))) => return format!("ERR {}", err_code(&e)),
+        _ => return "LOST".into(),
+    };
+    let Some(mut sc) = Client::connect(port) else { return "NOCONNECTION".into() };
+    sc.s.set_read_timeout(Some(Duration::from_secs(20))).ok();
+    if sc.send(&[w("EPSUB"), w(&pid.to_string()), w("FROM"), w("0")]).is_err() { return "LOST".into(); }
+    let mut evs: Vec<String> = Vec::new();
+    let mut subscribed = false;
+    let mut note = String::new();
+    loop {
+        if subscribed && last.map(|l| evs.len() as i64 > l).unwrap_or(true) { break; }
+        match sc.reply() {
+            Ok(V::Simple(_)) => {}                                   // the subscription id
+            Ok(V::Err(e)) => return format!("ERR {}", err_code(&e)),
+            Ok(V::Push(p)) => {
+                match p.first() {
+                    Some(V::Simple(k)) if k == "subscribe" => subscribed = true,
+                    Some(V::Simple(k)) if k == "message" => {
+                        let cursor = match p.get(2) { Some(V::Int(i)) => *i, _ => -1 };
+                        let e = p.get(3).map(|e| ss.canon_event(e)).unwrap_or_else(|| "BADEVENT".into());
+                        if !e.contains(&format!(" seq={cursor} ")) { note = format!(" +CURSOR{cursor}"); }
+                        evs.push(e);
+                    }
+                    _ => { note = format!(" +PUSH({p:?})"); break; }
+                }
+            }
+            Ok(o) => { note = format!(" +UNEXPECTED({o:?})"); break; }
+            Err(NetErr::Timeout) => { note = " +TIMEOUT".into(); break; }
+            Err(_) => { note = " +LOST".into(); break; }
+        }
+    }
+    format!("sub [{}]{note}", evs.join(";"))
+}
+
 /// run one history over one connection; returns the observed line
 fn run_history(hidx: usize, port: u16, hd: &Header, cmds: &[Vec<&str>]) -> String {
     let mut ss = Session::new(hd.clone());
@@ -367,6 +409,11 @@ fn run_history(hidx: usize, port: u16, hd: &Header, cmds: &[Vec<&str>]) -> Strin
     for (cidx, t) in cmds.iter().enumerate() {
         if t.is_empty() { continue; }
         let kind = t[0].chars().next().unwrap_or('?');
+        if kind == 'U' {
+            obs.push(subscribe(&mut ss, &mut cl, port, t));
+            if let Some((pid, seq)) = wait.take() { if !quiesce(&mut cl, pid, seq) { if let Some(l) = obs.last_mut() { l.push_str(" +NOTCONFIRMED"); } } }
+            continue;
+        }
         let Some(words) = ss.render(hidx, cidx, t) else { obs.push("BADCASE".into()); continue };
         if cl.is_none() { cl = Client::connect(port); }
         let Some(c) = cl.as_mut() else { obs.push("NOCONNECTION".into()); continue };
@@ -625,7 +672,7 @@ impl Gen {
             0 | 1 | 2 => { let (s, e, c) = (self.pos(sv), self.pos(sv), self.count()); let (s, e) = if self.rng.chance(2, 3) && s == "+" { ("-".to_string(), e) } else { (s, e) }; format!("S st{st} {s} {e}{pko}{c}") }
             3 | 4 | 5 => { let (p, hi) = psel(self); let (s, e, c) = (self.pos(hi), self.pos(hi), self.count()); format!("P {p} {s} {e}{c}") }
             6 => format!("V st{st}{pko}"),
-            7 => { let (p, _) = psel(self); format!("Q {p}") }
+            7 => { let (p, _) = psel(self); if self.rng.chance(1, 4) && !p.starts_with('k') && p.parse::<u16>().map(|x| x < self.hd.p).unwrap_or(false) { format!("U {p}") } else { format!("Q {p}") } }
             _ => {
                 if !self.used.is_empty() && self.rng.chance(1, 2) { format!("G {}", self.rng.pick(&self.used.clone())) }
                 else if self.rng.chance(1, 6) { format!("G e{}h{}", 900 + self.rng.below(50), self.rng.below(65536)) }
@@ -662,7 +709,7 @@ impl Gen {
         }
         // a final sweep of reads over every stream and partition
         for st in self.streams.clone() { cmds.push(format!("S st{st} - +")); cmds.push(format!("V st{st}")); for j in 0..self.hd.keys.len() { if self.rng.chance(1, 2) { cmds.push(format!("S st{st} - + pk=k{j}")); } } }
-        for pid in 0..self.hd.p.min(16) { cmds.push(format!("P {pid} - + n={}", u64::MAX)); cmds.push(format!("Q {pid}")); }
+        for pid in 0..self.hd.p.min(16) { cmds.push(format!("P {pid} - + n={}", u64::MAX)); cmds.push(format!("Q {pid}")); if self.seqs.get(&pid).copied().unwrap_or(0) > 0 && self.rng.chance(1, 3) { cmds.push(format!("U {pid}")); } }
         format!("{} :: {}", self.header(), cmds.join(" ; "))
     }
 }
